@@ -111,13 +111,19 @@ def main():
     out = []
     for job in req["jobs"]:
         res = []
+        signal.alarm(int(job.get("build_timeout", 20)))
         try:
             cfg = build(job["g"], job["sr"])
             snap0 = ([(repr(r.w), str(r.head), tuple(map(str, r.body))) for r in cfg.rules], sorted(map(str, cfg.V)), str(cfg.S))
             obj = make(cfg, job["kind"])
+        except Timeout:
+            out.append({"build_err": "timeout"})
+            continue
         except Exception as e:  # noqa
             out.append({"build_err": f"{type(e).__name__}: {str(e)[:300]}"})
             continue
+        finally:
+            signal.alarm(0)
         for op in job["ops"]:
             signal.alarm(int(job.get("timeout", 30)))
             try:
